@@ -585,10 +585,25 @@ func (n *normaliser) site(h *nHelper, call *ast.CallExpr, cf string, parent map[
 						if u, isU := condID.(*ast.UnaryExpr); isU && u.Op == token.NOT {
 							condID, neg = u.X, true
 						}
+						// … likewise "if err := h(); err != nil {…}" with this return's err the literal nil
+						nilCmp := false
+						if be, isBE := condID.(*ast.BinaryExpr); isBE && !neg && (be.Op == token.NEQ || be.Op == token.EQL) {
+							if y, isY := be.Y.(*ast.Ident); isY && y.Name == "nil" {
+								condID, nilCmp, neg = be.X, true, be.Op == token.NEQ
+							}
+						}
 						if cid, isID := condID.(*ast.Ident); isID {
 							for k, l := range lhs {
-								if l == cid.Name && (vals[k] == "true" || vals[k] == "false") {
+								isLit := vals[k] == "true" || vals[k] == "false"
+								if nilCmp {
+									isLit = vals[k] == "nil"
+								}
+								if l == cid.Name && isLit {
+									// bool: taken ⇔ literal xor negation; nil comparison: "x == nil" taken, "x != nil" not
 									taken := (vals[k] == "true") != neg
+									if nilCmp {
+										taken = !neg
+									}
 									switch {
 									case taken:
 										t, ok := n.render(cf, n.off(ifs.Body.Pos()), n.off(ifs.Body.End()))
